@@ -14,19 +14,26 @@ import (
 )
 
 // history: {"schemas":[{"text":..., "types":[[name,text]...]}...], "docs":[text...], "enums":[text...], "regexes":[text...],
-//           "ops":[["check",0],["validate",0,1],["example",1],["ast",0],["used",0],["len",0],["dcheck",1],["dlen",1],["dlex",1],
-//                  ["echeck",0],["evalues",0],["elen",0],["rcheck",0],["rlen",0],["rexample",0]]}
+//
+//	"ops":[["check",0],["validate",0,1],["example",1],["ast",0],["used",0],["len",0],["dcheck",1],["dlen",1],["dlex",1],
+//	       ["echeck",0],["evalues",0],["elen",0],["rcheck",0],["rlen",0],["rexample",0]]}
+//
 // Every op is run (a) on the shared pool in history order and (b) on freshly built objects; values handed out in (a) are kept and
 // re-rendered after the whole history. Output: one entry per op: [result_in_history, result_on_fresh_objects, result_re_rendered_at_the_end].
 type histCase struct {
 	Schemas []struct {
 		Text  string      `json:"text"`
 		Types [][2]string `json:"types"`
+		// UseShared: names of the shared types added to this schema (absent = all of them)
+		UseShared []string `json:"use_shared"`
 	} `json:"schemas"`
-	Docs    []string        `json:"docs"`
-	Enums   []string        `json:"enums"`
-	Regexes []string        `json:"regexes"`
-	Ops     [][]interface{} `json:"ops"`
+	// SharedTypes are built once and added to EVERY schema of the pool (and to each other): the same
+	// user-type objects serve several schemas.
+	SharedTypes [][2]string     `json:"shared_types"`
+	Docs        []string        `json:"docs"`
+	Enums       []string        `json:"enums"`
+	Regexes     []string        `json:"regexes"`
+	Ops         [][]interface{} `json:"ops"`
 }
 
 type pool struct {
@@ -38,6 +45,15 @@ type pool struct {
 
 func buildPool(c *histCase) *pool {
 	p := &pool{}
+	var shared []*js.Schema
+	for _, t := range c.SharedTypes {
+		shared = append(shared, js.New(t[0], t[1]))
+	}
+	for _, x := range shared {
+		for i, t := range c.SharedTypes {
+			_ = x.AddType(t[0], shared[i])
+		}
+	}
 	for _, s := range c.Schemas {
 		root := js.New("root", s.Text)
 		var ts []*js.Schema
@@ -48,6 +64,15 @@ func buildPool(c *histCase) *pool {
 		for _, x := range all {
 			for i, t := range s.Types {
 				_ = x.AddType(t[0], ts[i])
+			}
+			for i, t := range c.SharedTypes {
+				use := s.UseShared == nil
+				for _, u := range s.UseShared {
+					use = use || u == t[0]
+				}
+				if use {
+					_ = x.AddType(t[0], shared[i])
+				}
 			}
 		}
 		p.schemas = append(p.schemas, root)
